@@ -1,5 +1,4 @@
-import AkVerif.Lemmas.ColorsConfTotal
-import AkVerif.Lemmas.ColorsConfGlobal
+import AkVerif.Lemmas.ColorsConfReentrant
 /-!
 # C14 — syntax colors resolve by inheritance, independent of registration order
 
@@ -288,6 +287,74 @@ theorem unknown_then_known (classes : List ClassDef) (nc : Bool) (cfg : Cfg) (op
       · exact absurd ⟨r, hr2⟩ hn2
     · exact absurd ⟨r, hr⟩ hn
 
+/-! ### one palette obtained twice (what C10 calls *late resolution*)
+
+`P` is obtained in state `w` (`w1`, `s1`), then anything happens (`ops`: e.g. another palette `Q` is
+obtained, which registers the defaults of `Q`'s classes), then `P` is obtained again (`w3`, `s2`). -/
+
+/-- both palettes are snapshots of `get_color` in the state right after they were obtained, and the second
+state is a later state of the first configuration -/
+theorem palette_twice (classes : List ClassDef) (nc : Bool) (cfg : Cfg) (ops0 ops : List Op) (w w1 w2 w3 : World)
+    (k : Nat) (s1 s2 : Snap) (h : run classes nc cfg ops0 = .ok w)
+    (hp1 : getPalette classes w k false = .ok (w1, s1)) (hops : runOps classes w1 ops = .ok w2)
+    (hp2 : getPalette classes w2 k false = .ok (w3, s2)) :
+    ∃ cd, classes[k]? = some cd ∧ s1 = snapOf w1.conf cd.accessors ∧ s2 = snapOf w3.conf cd.accessors ∧
+      Good nc w1.conf.map ∧ Good nc w3.conf.map ∧ Later w1.conf w3.conf ∧ w1.conf.noColor = nc := by
+  obtain ⟨hg, hnc⟩ := run_good h
+  obtain ⟨hg1, hl1, cd, hcd, hs1⟩ := getPalette_spec hg hp1
+  obtain ⟨hg2, hl2⟩ := runOps_good ops w1 w2 hg1 hops
+  obtain ⟨hg3, hl3, cd', hcd', hs2⟩ := getPalette_spec hg2 hp2
+  rw [hcd] at hcd'; cases hcd'
+  have n1 : w1.conf.noColor = nc := hl1.nc.trans hnc
+  have n3 : w3.conf.noColor = nc := (hl3.nc.trans hl2.nc).trans n1
+  refine ⟨cd, hcd, by simpa using hs1, by simpa using hs2, ?_, ?_, hl2.trans hl3, n1⟩
+  · rw [← n1]; exact hg1.conf.good
+  · rw [← n3]; exact hg3.conf.good
+
+/-- **When does the second palette differ from the first?** Accessor by accessor (syntax id `x`):
+* if `x` was described with a complete chain when `P` was first obtained, its formatter is the same;
+* if `x` is still not described when `P` is obtained again and the default syntax had a complete chain, the same;
+* if `x` was described but its chain was incomplete (it referred, directly or not, to an id that no
+  registration had supplied yet), the formatter differs **iff** the registrations in between completed the
+  chain to attributes with a visible effect. -/
+theorem palette_after_palette (classes : List ClassDef) (nc : Bool) (cfg : Cfg) (ops0 ops : List Op)
+    (w w1 w2 w3 : World) (k : Nat) (s1 s2 : Snap) (h : run classes nc cfg ops0 = .ok w)
+    (hp1 : getPalette classes w k false = .ok (w1, s1)) (hops : runOps classes w1 ops = .ok w2)
+    (hp2 : getPalette classes w2 k false = .ok (w3, s2)) (x : Id) :
+    (Settled (finalDescs w1) x → getColor w3.conf x = getColor w1.conf x) ∧
+    (finalDescs w3 x = none → Settled (finalDescs w1) Gen.C14.dfltId → getColor w3.conf x = getColor w1.conf x) ∧
+    ((finalDescs w1 x).isSome = true → ¬ Resolvable (finalDescs w1) x →
+      (getColor w3.conf x ≠ getColor w1.conf x ↔
+        ∃ r f, Resolves (finalDescs w3) x r ∧ mkFmt nc r = .ok f ∧ f ≠ [])) := by
+  obtain ⟨cd, _, _, _, hg1, hg3, hl, n1⟩ := palette_twice classes nc cfg ops0 ops w w1 w2 w3 k s1 s2 h hp1 hops hp2
+  have n3 : w3.conf.noColor = nc := hl.nc.trans n1
+  have g1 : Good w1.conf.noColor w1.conf.map := by rw [n1]; exact hg1
+  have g3 : Good w3.conf.noColor w3.conf.map := by rw [n3]; exact hg3
+  refine ⟨fun hs => getColor_settled g1 g3 hl hs, fun hun hs => getColor_unknown_settled g1 g3 hl hun hs, ?_⟩
+  intro hreg hn
+  have := getColor_late_iff g1 g3 hl hreg hn
+  rwa [n1] at this
+
+/-- the whole palette is unchanged when each of its syntax ids was settled (or is still unknown, with the
+default syntax settled) -/
+theorem palette_unchanged (classes : List ClassDef) (nc : Bool) (cfg : Cfg) (ops0 ops : List Op)
+    (w w1 w2 w3 : World) (k : Nat) (s1 s2 : Snap) (h : run classes nc cfg ops0 = .ok w)
+    (hp1 : getPalette classes w k false = .ok (w1, s1)) (hops : runOps classes w1 ops = .ok w2)
+    (hp2 : getPalette classes w2 k false = .ok (w3, s2))
+    (hall : ∀ cd, classes[k]? = some cd → ∀ a ∈ cd.accessors,
+      Settled (finalDescs w1) a.2 ∨ (finalDescs w3 a.2 = none ∧ Settled (finalDescs w1) Gen.C14.dfltId)) :
+    s2 = s1 := by
+  obtain ⟨cd, hcd, e1, e2, _⟩ := palette_twice classes nc cfg ops0 ops w w1 w2 w3 k s1 s2 h hp1 hops hp2
+  rw [e1, e2]
+  unfold snapOf
+  apply List.map_congr_left
+  intro a ha
+  obtain ⟨n, x⟩ := a
+  have p := palette_after_palette classes nc cfg ops0 ops w w1 w2 w3 k s1 s2 h hp1 hops hp2 x
+  rcases hall cd hcd (n, x) ha with hs | ⟨hun, hs⟩
+  · simp [p.1 hs]
+  · simp [p.2.1 hun hs]
+
 /-- **`no_color`.** A configuration created with `no_color` hands out effect-free formatters only, through
 `get_color` and through every palette; and a palette requested with `no_color` is effect-free under any
 configuration. -/
@@ -427,6 +494,66 @@ theorem synced_fresh (classes : List ClassDef) (nc : Bool) (cfg : Cfg) (ops : Li
     obtain ⟨cd, hcd, hsn⟩ := hi.fresh hglob k s hs
     exact ⟨cd, hcd, hsn, fun a _ => hspec a.2⟩
 
+/-! ### the explicit domain on which nothing raises — palettes, global configuration and synced palettes included
+
+`Ctx classes offers safe` (decidable, `ctxb`): parents of a class have smaller indices; every description that
+can be offered (`offers`: explicit configuration, built-ins, items of operations, class defaults) is accepted
+by the parser and the union of all offered references is acyclic; the classes in `safe` (those that may get a
+synced palette) have, among themselves and their ancestors, no class with defaults below another class with
+defaults.  `OpsOK`: operations offer only `offers`, use fresh component names and existing class indices,
+create synced palettes only for `safe` classes and read only synced palettes that exist. -/
+
+/-- **no exception on the domain**, for every case of the protocol -/
+theorem no_error_global (classes : List ClassDef) (offers : List (Id × Str)) (safe : List Nat)
+    (cx : Ctx classes offers safe) (nc : Bool) (cfg : Cfg) (ops : List GOp)
+    (hcfg : ∀ kv ∈ flatten cfg, kv ∈ offers) (hbi : ∀ kv ∈ flatten Gen.C14.builtin, kv ∈ offers)
+    (hok : OpsOK classes offers safe [] [] ops) : ∃ g, runAll classes nc cfg ops = .ok g :=
+  runAll_total cx nc cfg ops hcfg hbi hok
+
+/-- in particular histories `run` that create palettes never raise on the domain (no synced palettes: `safe`
+may be empty, classes with defaults may have parents with defaults) -/
+theorem no_error_pal (classes : List ClassDef) (offers : List (Id × Str))
+    (cx : Ctx classes offers []) (nc : Bool) (cfg : Cfg) (ops : List Op)
+    (hcfg : ∀ kv ∈ flatten cfg, kv ∈ offers) (hbi : ∀ kv ∈ flatten Gen.C14.builtin, kv ∈ offers)
+    (hok : OpsOK classes offers [] [] [] (ops.map GOp.op)) : ∃ w, run classes nc cfg ops = .ok w := by
+  obtain ⟨g, hg⟩ := runAll_total cx nc cfg (ops.map GOp.op) hcfg hbi hok
+  rw [global_off_same] at hg
+  cases hr : run classes nc cfg ops with
+  | ok w => exact ⟨w, rfl⟩
+  | error e => simp [hr, mapE] at hg
+
+/-- **outside the domain: the re-entrant registration.** When the configuration is made the global one while
+the first synced palette belongs to a class `K` with defaults whose only parent `P` has defaults that offer
+an id unknown to the configuration (neither class registered yet), `set_global_colors_config` never returns
+normally: registering `P` modifies the global configuration, the nested re-sync registers `K`, and `K`'s own
+registration then hits `assert src_obj not in self.registered_sources` (`SyncSafe` excludes exactly this
+shape: a class with defaults below a synced class that has an ancestor with defaults). -/
+theorem setGlobal_reentrant_raises (classes : List ClassDef) (nc : Bool) (cfg : Cfg) (ops : List GOp) (g : GWorld)
+    (h : runAll classes nc cfg ops = .ok g) (K P : Nat) (cdK cdP : ClassDef) (cfgK cfgP : Cfg)
+    (rest : List Nat) (id : Id) (s : Str)
+    (hK : classes[K]? = some cdK) (hP : classes[P]? = some cdP)
+    (hKp : cdK.parents = [P]) (hKd : cdK.defaults = some cfgK)
+    (hPp : cdP.parents = []) (hPd : cdP.defaults = some cfgP)
+    (hkeys : g.synced.map (·.1) = K :: rest)
+    (hKs : Src.cls K ∉ g.w.conf.sources) (hPs : Src.cls P ∉ g.w.conf.sources)
+    (hnew : strOf g.w.conf.map id = none) (hit : dictGet (flatten cfgP) id = some s) :
+    ∀ r, stepG classes g .setGlobal ≠ .ok r := by
+  intro r hr
+  unfold runAll at h
+  cases h1 : newConf nc cfg with
+  | error err => simp [h1] at h
+  | ok c =>
+    simp only [h1] at h
+    obtain ⟨hgc, _, _⟩ := newConf_good (classes := classes) h1
+    have hi0 : GInv classes ⟨⟨c, []⟩, false, []⟩ :=
+      ⟨⟨hgc, fun k s hk => by simp [cacheGet] at hk⟩, fun hf => by cases hf⟩
+    obtain ⟨hi, _⟩ := runG_inv ops _ g hi0 h
+    simp only [stepG] at hr
+    cases h2 : syncTop classes { g with isGlobal := true } with
+    | error e => simp [h2] at hr
+    | ok g' =>
+      exact setGlobal_reentrant hi.good.conf.good hK hP hKp hKd hPp hPd hkeys hKs hPs hnew hit g' h2
+
 /-! Non-vacuity: concrete histories evaluated by the kernel.  `B` refers to `A` (registered later) and
 selects the terminal default foreground with `-`; `C` refers to `B`.  Before `A` is known both are
 uncoloured, afterwards `B` = ESC[44;1m (background and bold inherited, foreground default) and
@@ -494,5 +621,47 @@ example : syncedAfter (runAll exClasses false exCfg
       [.syn 0, .setGlobal, .op (.add [(['A'], "GREEN".toList)]), .sget 0]) 0 =
     some [(['t', 'e', 'x', 't'], ['T', 'E', 'X', 'T'], []),
           (['a', 'c', 'c'], ['C'], Char.ofNat 27 :: "[32;44;4m".toList)] := by decide +kernel
+
+/-- late resolution, the shape of C10's finding: the explicit configuration makes `TABLE.BORDER` refer to
+`RECORD.TITLE`, which only the class of palette `Q` registers.  `P` obtained first has a plain border; after `Q`
+was obtained, `P` obtained again has the coloured one (hypothesis and right-hand side of the `iff` of
+`palette_after_palette` hold: the chain was incomplete, `Q`'s defaults complete it to GREEN). -/
+def lateClasses : List ClassDef :=
+  [⟨[], none, [("border".toList, "TABLE.BORDER".toList)]⟩,
+   ⟨[], some (.dict (.cons "RECORD.TITLE".toList (.str "GREEN".toList) .nil)), []⟩]
+def lateCfg : Cfg := .dict (.cons "TABLE.BORDER".toList (.str "RECORD.TITLE".toList) .nil)
+def paletteOf (r : Except Err World) (k : Nat) : Option Snap :=
+  match r with
+  | .ok w => (match getPalette lateClasses w k false with
+    | .ok (_, s) => some s
+    | .error _ => none)
+  | .error _ => none
+example : paletteOf (run lateClasses false lateCfg []) 0 =
+    some [("border".toList, "TABLE.BORDER".toList, [])] := by decide +kernel
+example : paletteOf (run lateClasses false lateCfg [.pal 0 false, .pal 1 false]) 0 =
+    some [("border".toList, "TABLE.BORDER".toList, Char.ofNat 27 :: "[32m".toList)] := by decide +kernel
+
+/-- the domain of `no_error_global` is inhabited: two classes (class 1 lists class 0 as parent, only class 0
+has defaults), a synced palette of class 1 created before the configuration becomes the global one -/
+def safeClasses : List ClassDef :=
+  [⟨[], some (.dict (.cons ['A'] (.str "RED/BLUE:bold".toList) .nil)), [(['a', 'c', 'c'], ['C'])]⟩,
+   ⟨[0], none, [(['b'], ['B'])]⟩]
+def safeOffers : List (Id × Str) :=
+  flatten exCfg ++ flatten Gen.C14.builtin ++ [(['A'], "RED/BLUE:bold".toList), (['Z'], "C:underline".toList)]
+def safeOps : List GOp :=
+  [.syn 1, .op (.pal 0 false), .setGlobal, .sget 1, .op (.add [(['Z'], "C:underline".toList)]), .syn 0, .sget 0]
+example : ctxb safeClasses safeOffers [0, 1] (chainDepth safeOffers 20) = true := by decide +kernel
+example : (∀ kv ∈ flatten exCfg, kv ∈ safeOffers) ∧ (∀ kv ∈ flatten Gen.C14.builtin, kv ∈ safeOffers) ∧
+    OpsOK safeClasses safeOffers [0, 1] [] [] safeOps := by
+  refine ⟨by decide +kernel, by decide +kernel, ?_⟩
+  simp only [safeOps, OpsOK]
+  decide +kernel
+/-- … and the shape of `setGlobal_reentrant_raises`, evaluated: `AssertionError` -/
+def reClasses : List ClassDef :=
+  [⟨[], some (.dict (.cons "P1.X".toList (.str "RED".toList) .nil)), []⟩,
+   ⟨[0], some (.dict (.cons "K.Y".toList (.str "P1.X:bold".toList) .nil)), [(['y'], "K.Y".toList)]⟩]
+example : (match runAll reClasses false (.dict .nil) [.syn 1, .setGlobal] with
+    | .ok _ => none
+    | .error e => some e) = some .assertion := by decide +kernel
 
 end C14
